@@ -1231,7 +1231,7 @@ fn token_classes() -> Vec<(Vec<u8>, &'static str)>
 /// separator atoms; `true` = starts with `/` (must not directly follow a `/` token)
 fn separator_atoms() -> Vec<(Vec<u8>, bool)>
 {
-	[(" ", false), ("   ", false), ("\t", false), ("\t \t", false), ("\n", false), ("\r\n", false), ("\n\n\n", false), (" \r\n\t", false),
+	[(" ", false), ("   ", false), ("\t", false), ("\t \t", false), ("\n", false), ("\r\n", false), ("\n\n\n", false), (" \r\n\t", false), ("\r", false), ("\n\r", false), (" \r ", false), ("\r\r\n\r", false),
 		("// line comment\n", true), ("//\n", true), ("// h\u{e9}llo \u{1F600} /* not a block\n", true), ("//\t\"'\\\r\n", true),
 		("/**/", true), ("/* block */", true), ("/* \u{e9}\u{20AC}\u{1F600} */", true), ("/* line1\nline2 \u{e9}\n\tline3 */", true),
 		("/* a /* nested \u{e9} */ b */", true), ("/* /* /* */ */\n */", true), ("/*/ */", true), ("/*\r\n*/", true), ("/* // */", true),
@@ -1372,6 +1372,8 @@ fn clone_section(cx: &mut Cx, rng: &mut Rng)
 	let fixed: [&[u8]; 5] = [b"start:\n\tMOVS R0, 1; // c\nloop: .du8 \"s;\\n\", 2;\n  B loop;\n",
 		"a: /* \u{e9}\u{20ac}\n \u{1F600} */ NOP; b:\r\n\tNOP;".as_bytes(), b".dstr \"multi\nline\"; x: .du32 'q' + 1;\n\n\nend:",
 		b"x: y: z:\nNOP;NOP;\n\tNOP", b"MOVS R0, (1 +\n 2) * 3;\n?"];
+	let cr: [&[u8]; 2] = [b"a:\rNOP; \r b:\n\r.du8 1;\r\r\nc:", b"\r\rx: \r MOVS R0,\r1;\n\r\ty:"];
+	for f in cr {for k in 0..7 {for p in 0..3 {check_clone(cx, f, k, p);}}}
 	for f in fixed {for k in 0..9 {for p in 0..3 {check_clone(cx, f, k, p);}}}
 	let n = if cx.thorough() {40_000} else {6_000};
 	for _ in 0..n
@@ -1417,6 +1419,7 @@ fn check_elements(cx: &mut Cx, text: &[u8], offsets: &[usize])
 fn element_positions(cx: &mut Cx, rng: &mut Rng)
 {
 	let seps: [&str; 12] = [" ", "\n", "\t", "\r\n", "  ", " // c\n", " /* \u{e9}\u{20ac} */ ", "/* a\n b */", "\n\n", "/**/", " /* /* n */ */ ", "\n\t// \u{1F600}\n"];
+	let seps: Vec<&str> = seps.iter().copied().chain(["\r", "\n\r", " \r ", "/* \r */\r"]).collect();
 	let inner: [&str; 9] = ["", "", " ", "\t", "/* c */", "\r\n", "\n", " /* \u{e9} */ ", "/*\n*/"];
 	let n = if cx.thorough() {60_000} else {6_000};
 	for _ in 0..n
